@@ -136,6 +136,8 @@ def _run_decode(job):
                 toks = tok.decode(list(ids))
             except TokenError:
                 return [("TokenError only for an id outside the vocabulary", z3.Not(in_range))]
+            except Inconclusive:
+                raise
             except Exception as e:
                 return [(f"unknown id raises the library's TokenError (got {type(e).__name__})", z3.BoolVal(False))]
             obs = [("decode succeeds only for ids inside the vocabulary", in_range)]
@@ -164,6 +166,8 @@ def _replay_decode(job, inputs, notes):
         toks = tok.decode(ids)
     except TokenError:
         return None if not ok else f"decode-rejects-valid:{name} | decode({ids}) raised TokenError"
+    except Inconclusive:
+        raise
     except Exception as e:
         return f"decode-wrong-error:{name} | decode({ids}) raised {type(e).__name__} instead of TokenError"
     if not ok:
@@ -195,6 +199,8 @@ def _run_encode(job):
                     obs.append((f"unknown token {bad!r} raises TokenError", z3.BoolVal(False)))
                 except TokenError:
                     obs.append((f"unknown token {bad!r} raises TokenError", z3.BoolVal(True)))
+                except Inconclusive:
+                    raise
                 except Exception as e:
                     obs.append((f"unknown token {bad!r} raises TokenError (got {type(e).__name__})", z3.BoolVal(False)))
             obs.append(("string input is split on whitespace", z3.BoolVal(tok.encode(f"{arr[0]} {arr[-1]}") == [0, n - 1])))
@@ -224,6 +230,8 @@ def _replay_encode(job, inputs, notes):
             return f"encode-accepts-unknown:{name} | encode([{bad!r}]) did not raise"
         except TokenError:
             pass
+        except Inconclusive:
+            raise
         except Exception as e:
             return f"encode-wrong-error:{name} | {type(e).__name__} for {bad!r}"
     return None
